@@ -191,7 +191,7 @@ public:
     template <class tvalue>
     tensor_size_t bin(tvalue value) const
     {
-        const auto svalue = static_cast<tensor_size_t>(value); // NOLINT(cert-str34-c)
+        const auto svalue = static_cast<scalar_t>(value); // NOLINT(cert-str34-c)
 
         const auto* const begin = std::begin(m_thresholds);
         const auto* const end   = std::end(m_thresholds);
